@@ -186,6 +186,7 @@ HSend(c0, e) ==
                        <<"C07", c.expired => e.t = "reset_query">>,
                        <<"C13", e.v = c.ver \/ down>>,
                        <<"C14", e.len = (IF e.t = "reset_query" THEN 8 ELSE 12)>>,
+                       <<"C14", Has(e, "calls") => CallsOK(e.calls)>>,        \* TrAll!OneDeadline for the pieces of one PDU
                        <<"C14", c.owed = None>>,
                        <<"C03", Has(e, "my") => ToSet(e.my) = c.my>>,
                        <<"C03", Has(e, "oth") => ToSet(e.oth) = c.oth>>}))
@@ -199,7 +200,8 @@ HSend(c0, e) ==
   ELSE Res(c0, {"C14"})                                  \* the client never sends any other PDU type
 
 HSendFail(c, e) ==
-  Res([c EXCEPT !.pc = "errwait", !.now = e.now, !.owed = None], Chk({<<"ENV", c.pc \in {"query", "poll", "reported"}>>}))
+  Res([c EXCEPT !.pc = "errwait", !.now = e.now, !.owed = None],
+      Chk({<<"ENV", c.pc \in {"query", "poll", "reported"}>>, <<"C14", Has(e, "calls") => CallsOK(e.calls)>>}))
 
 HandleErrPdu(c, f) ==
   IF f.code = 2 THEN [c EXCEPT !.needSess = TRUE, !.serial = "0", !.ack = None, !.pc = "nodata", !.buf = <<>>]
